@@ -78,6 +78,15 @@ pub fn universe(quick: bool, with_compounds: bool, with_option: bool) -> Vec<T> 
             for a in s3.iter() {
                 u.push(T::Cmp(Tag::Some, vec![a.clone()]));
             }
+            // an Option FIELD of a compound struct: Some(_) and None have the same Rust type but
+            // are different structures
+            let some = |t: &T| T::Cmp(Tag::OptSome, vec![t.clone()]);
+            let none = T::Cmp(Tag::OptNone, vec![]);
+            u.push(T::Cmp(Tag::Holder, vec![some(&x), y.clone()]));
+            u.push(T::Cmp(Tag::Holder, vec![none.clone(), y.clone()]));
+            u.push(T::Cmp(Tag::Holder, vec![some(&T::I(1)), T::I(1)]));
+            u.push(T::Cmp(Tag::Holder, vec![none.clone(), T::I(1)]));
+            u.push(T::Cmp(Tag::Holder, vec![some(&z), z.clone()]));
         }
     }
     u.push(T::list(vec![T::list(vec![x.clone()])]));
